@@ -245,8 +245,7 @@ def main():
     symcore.Explorer.incremental = False
     import ImageD11.unitcell as UC
     ck.encoded("ImageD11/unitcell.py:P/A/B/C/I/F/R and the outif table (CrossHair)", "ImageD11/unitcell.py:unitcell.gethkls (pysym, final sort cut away)", "ImageD11/unitcell.py:unitcell.ds", "ImageD11/unitcell.py:unitcell.makerings", "ImageD11/unitcell.py:unitcell.gethkls cache (limit, peaks) from an arbitrary cached state")
-    H = 2 if thorough else 1
-    ck.bound("centring rules: all integers h,k,l (unbounded)", "gethkls: all cells of the orthogonal family (reciprocal metric diag(x,y,z); thorough: also the monoclinic-b family as a stretch obligation) with every d* limit such that all reflections below the limit satisfy |h|,|k|,|l| <= %d; centrings P, I, F (thorough: all seven)" % H,
+    ck.bound("centring rules: all integers h,k,l (unbounded)", "gethkls: all cells of the orthogonal family (reciprocal metric diag(x,y,z)) with every d* limit such that all reflections below the limit have |h|,|k|,|l| <= 1, centrings P, I, F, and the monoclinic-b family (P); thorough: index box 2 for P, I, F, box 1 for A, B, C, R, and the monoclinic-b family (P, C; box 1; a stretch obligation if the solver gives up)",
              "makerings: every ascending list of <= %d symbolic d* values and every tolerance > 0" % (5 if thorough else 4),
              "general triclinic metrics and larger index boxes are outside the bound")
     ck.assume("real-arithmetic model; math.sqrt(q) compared through its radicand (monotonicity on q >= 0)", "the final peaks.sort() is cut away by an AST transformation of the current source (sorting is list.sort)",
@@ -254,8 +253,9 @@ def main():
     crosshair_rules(ck, thorough)
     gethkls, ncut = without_sort(UC)
     if ncut != 1: ck.inconclusive.append("expected exactly one .sort() call in gethkls, found %d" % ncut)
-    fams = [("orthogonal", s) for s in (("P", "I", "F") if not thorough else ("P", "A", "B", "C", "I", "F", "R"))] + ([("monoclinic-b", "P")] if thorough else [])
-    for fam, sym in fams:
+    fams = [("orthogonal", s_, 1) for s_ in ("P", "I", "F")] + [("monoclinic-b", "P", 1)] if not thorough else \
+           [("orthogonal", s_, 2) for s_ in ("P", "I", "F")] + [("orthogonal", s_, 1) for s_ in ("A", "B", "C", "R")] + [("monoclinic-b", "P", 1), ("monoclinic-b", "C", 1)]
+    for fam, sym, H in fams:
         name = "gethkls[%s,%s,box %d]" % (fam, sym, H)
         try:
             outs = harness.par_paths(ck, make_hkl_run(UC, fam, sym, H, gethkls), on_hkl_path(fam, sym, H), depth=5, timeout_ms=30000)
